@@ -303,6 +303,21 @@ func c13Hosts() []model.Message {
 	}
 }
 
+func c13MeaningfulBodies() []model.Bytes {
+	var out []model.Bytes
+	for _, fr := range [][2]uint16{{1, 1}, {1, 2}, {2, 2}, {0, 0}, {1, 0}, {2, 1}, {0xffff, 0xffff}} {
+		hd := model.Bytes{byte(fr[0] >> 8), byte(fr[0]), byte(fr[1] >> 8), byte(fr[1])}
+		out = append(out, hd, append(append(model.Bytes(nil), hd...), 0xaa), append(append(model.Bytes(nil), hd...), pat(48, 3)...))
+	}
+	out = append(out,
+		model.Bytes{0, 0, 0, 8, 1, 2, 3, 4},                           // reads as one generic payload, last of its chain
+		model.Bytes{40, 0, 0, 8, 1, 2, 3, 4, 0, 0, 0, 5, 9},           // ... as a Nonce followed by another payload
+		model.Bytes{2, 0, 0, 0, 'a', '@', 'b'},                        // ID-like: type, RESERVED, data
+		model.Bytes{12, 0, 0, 0}, model.Bytes{0, 0, 0, 0, 0, 0, 0, 0}, // method / reserved-looking starts
+	)
+	return out
+}
+
 func TestC13(t *testing.T) {
 	c := probe.NewCtx(t, "C13")
 	if c.Shard == 0 {
@@ -337,6 +352,41 @@ func TestC13(t *testing.T) {
 			}
 		}
 	}
+	// bodies that mean something to somebody for the registered types among the unsupported ones (IKEv1 payload types 1..32,
+	// GSPM 49, IDg 50, GSA 51, KD 52, SKF 53, PS 54): fragment headers "k of n", a nested payload chain, an ID-like body
+	for _, host := range c13Hosts()[1:3] {
+		for ty := 1; ty <= 54; ty++ {
+			if ty >= 33 && ty <= 48 {
+				continue
+			}
+			for _, body := range c13MeaningfulBodies() {
+				for pos := 0; pos <= len(host.Payloads); pos++ {
+					for _, crit := range []bool{false, true} {
+						for _, via := range []string{"message", "container", "sk", "dd-nokey"} {
+							in := c13In{Host: host, Via: via, Inserts: []c13Insert{{Pos: pos, Raw: model.Raw{Type: uint8(ty), Critical: crit, Body: body}}}}
+							if !c13Table.Eval(c, in) && c.Failures() > 3 {
+								goto done
+							}
+						}
+					}
+				}
+			}
+		}
+	}
+	// every value of every 8-bit identifier of the supported payloads next to an unsupported payload (a rule may look at both)
+	idSweep8(func(m model.Message) bool {
+		for i, ty := range []uint8{49, 53, 50, 13, 200, 54} {
+			pos := 0
+			if i%2 == 1 {
+				pos = len(m.Payloads)
+			}
+			in := c13In{Host: m, Via: []string{"message", "dd-nokey", "container"}[i%3], Inserts: []c13Insert{{Pos: pos, Raw: model.Raw{Type: ty, Body: model.Bytes{0xde, 0xad, ty}}}}}
+			if !c13Table.Eval(c, in) && c.Failures() > 3 {
+				return false
+			}
+		}
+		return true
+	})
 	c.Exhaustive("table")
 done:
 	c13Random.Run(c, t, c.N(3000, 30000))
